@@ -240,6 +240,66 @@ type FedFile struct {
 	HasIP   bool   `json:"has_ip,omitempty"`
 }
 
+// TapPersist records the response handed to Generator.Persist (the assembled
+// output before post-processing): res has the fields Error *string and
+// Contents []*Generated.
+func TapPersist(res interface{}) {
+	if W == nil {
+		return
+	}
+	v := reflect.ValueOf(res)
+	for v.Kind() == reflect.Ptr || v.Kind() == reflect.Interface {
+		if v.IsNil() {
+			Tap("persist", map[string]interface{}{"nil": true})
+			return
+		}
+		v = v.Elem()
+	}
+	out := map[string]interface{}{}
+	if v.Kind() == reflect.Struct {
+		if f := v.FieldByName("Error"); f.IsValid() && f.Kind() == reflect.Ptr && !f.IsNil() {
+			out["error"] = []byte(f.Elem().String())
+			out["has_error"] = true
+		}
+		if f := v.FieldByName("Contents"); f.IsValid() {
+			out["files"] = fedFiles(f.Interface())
+		}
+	}
+	Tap("persist", out)
+}
+
+func fedFiles(files interface{}) []FedFile {
+	var out []FedFile
+	v := reflect.ValueOf(files)
+	if v.Kind() != reflect.Slice {
+		return out
+	}
+	for i := 0; i < v.Len(); i++ {
+		e := v.Index(i)
+		for e.Kind() == reflect.Ptr || e.Kind() == reflect.Interface {
+			if e.IsNil() {
+				break
+			}
+			e = e.Elem()
+		}
+		if e.Kind() != reflect.Struct {
+			continue
+		}
+		var ff FedFile
+		if f := e.FieldByName("Content"); f.IsValid() && f.Kind() == reflect.String {
+			ff.Content = []byte(f.String())
+		}
+		if f := e.FieldByName("Name"); f.IsValid() && f.Kind() == reflect.Ptr && !f.IsNil() {
+			ff.Name, ff.HasName = []byte(f.Elem().String()), true
+		}
+		if f := e.FieldByName("InsertionPoint"); f.IsValid() && f.Kind() == reflect.Ptr && !f.IsNil() {
+			ff.IP, ff.HasIP = []byte(f.Elem().String()), true
+		}
+		out = append(out, ff)
+	}
+	return out
+}
+
 // TapFeed records one FileManager.Feed call (source and submitted items).
 // files is a slice of pointers to structs with the fields Content string,
 // Name *string and InsertionPoint *string.
